@@ -16,7 +16,8 @@ CLAIMED = {
              "constructor alphabets up to depth 3 (quick) or 4 (thorough); every one of those behaviours is replayed "
              "into a fresh Lexicon and the identity (fresh vs. the very same node), outcome and read-back of every call "
              "are compared with the specification's prediction; seeded random histories with tree-rebalancing noise "
-             "are validated line by line by the trace specification.",
+             "are validated line by line by the trace specification, as are focused histories (few operand coordinates, a "
+             "small grid of spellings) that give one lookup table many keys sharing coordinates.",
         ref="DESIGN.md §3 C01", tech="TLA+ IprUnify: TLC behaviour enumeration replayed into the library + TLC trace validation",
         note=UNIFY_NOTE),
     "C04": dict(
@@ -51,14 +52,17 @@ CLAIMED.update({
              "(named aliases included), what reads as absent, and how settable links change that. TLC emits the complete sweep "
              "(every factory x every combination of candidate operands and enumerators x subsets of links) with the expected "
              "observation after each step; the replayer calls the real factory and reads every accessor. Random histories "
-             "where created nodes become operands are validated by the trace spec, with re-observation of earlier nodes.",
+             "where created nodes become operands are validated by the trace spec, with re-observation of earlier nodes. The "
+             "unified constructors are covered by IprUnify's read-back, declarations made through a scope (redeclarations "
+             "included) by IprScopes' read-back of name, type and aliasee.",
         ref="DESIGN.md §3 C02", tech="TLA+ IprMake + generated node table: complete factory sweep from TLC replayed + trace validation",
         note=MAKE_NOTE),
     "C09": dict(
         text="Type rules of the node table (given, given-if-supplied, fixed by kind, borrowed from an operand or a link, product "
              "of the current elements, never) are evaluated by IprMake.tla for every step of the C02 sweep and of the random "
              "histories and compared with type() of the real node; built-in/compound types and constants are covered by the "
-             "`ty` field of IprUnify, scope/parameter-list products by IprScopes.",
+             "`ty` field of IprUnify (behaviours and recorded histories in which earlier nodes are re-read after later requests), "
+             "scope/parameter-list products by IprScopes.",
         ref="DESIGN.md §3 C09", tech="TLA+ IprMake type rules: complete factory sweep replayed + trace validation",
         note=MAKE_NOTE),
     "C06": dict(
@@ -166,7 +170,8 @@ CLAIMED.update({
              "spelled, numbers are decimal numerals (Dec). Checked on every statement tree of depth 2 from TLC, on one instance of "
              "every implementation class through all four entry points (each print in a forked child with a time limit: a crash "
              "or time-out is a terminal event), on all 256 single-byte literals alone and next to \\1/\\2, and on all five "
-             "delimiters, each followed by a position and a nesting level on the same stream.",
+             "delimiters, each followed by a position and a nesting level on the same stream; every nesting construct repeated and "
+             "mixed to depths 1..90 and blocks printed at a pending indentation of 1..4097.",
         ref="DESIGN.md §3 C18", tech="TLA+ IprPrinter: control-state/outcome/number rules validated by TLC on a complete print sweep + TLC-enumerated statement trees",
         note="Trusted: TLC, spec/IprPrinter*.tla, harness/printer.cxx; default 8 MiB stack, 20 s per print."),
     "C05": dict(
@@ -185,7 +190,7 @@ CLAIMED.update({
              "string pools rolled over, two interleaved Lexicons) each run three times in one process with the global allocation "
              "functions replaced; runs 2 and 3 are validated by IprLedgerTrace allocation by allocation (<= 400 allocations) or "
              "by counters. IprLedgerMC is checked tight and with a forgetful owner (must violate) as a vacuity guard. ASan+LSan "
-             "runs of other recorders contribute their verdict as terminal events.",
+             "runs of this recorder and of other recorders contribute their verdict as terminal events.",
         ref="DESIGN.md §3 C19", tech="TLA+ IprLedger: allocation-ledger trace validation (operator new/delete replaced) + sanitizer verdicts as terminal events",
         note="Trusted: TLC, spec/IprLedger*.tla, harness/ledger.cxx (ledger of operator new/delete), ASan/LSan for dead-storage "
              "accesses. Histories are fixed scenarios plus seeds, not enumerated."),
